@@ -3,9 +3,12 @@ Line-protocol driver for the HTLC model and the C03 / C04 monitors.
   model   <ops>              : prints one observation line per op line
   monitor <C03|C04|C13> <ops> <obs> : evaluates the Spec on the implementation's observation stream
                                (C13 = the HTLC slice: begin block completes, due contracts handled exactly once, queue hygiene)
+`htlc export` / `htlc reimport` lines (genesis round trip, C12) are answered by `Irismod.HtlcGen`
+(Model/HtlcGenesis.lean); `monitor C12` judges them (Spec/C12_Htlc.lean).
 -/
 import Irismod.Spec.C03
 import Irismod.Spec.C04
+import Irismod.Spec.C12_Htlc
 
 namespace Driver.Htlc
 open Irismod Irismod.Sdk Irismod.Htlc Irismod.Line
@@ -188,6 +191,23 @@ def resWord : Except Err State → String
   | .error (.reject _) => "rej"
   | .error (.panic _) => "panic"
 
+/-- `DefaultPreviousBlockTime` (a process-start `time.Now()`) is exported only when the store has
+no previous block time; every history starts with one (reset line), so the value is never shown -/
+def defaultPrev : Nat := 0
+
+/-- the exported genesis document, contracts and supplies as sorted sets -/
+def showGenesis (g : HtlcGen.Genesis) : String :=
+  let hs := sortStrings (g.htlcs.map fun (id, c) =>
+    s!"{id}:{c.sender}:{c.to}:{showCoins c.amount}:{c.hashLock}:{undash c.secret}:{c.timestamp}:{c.expiration}:{showHState c.state}:{c.closedBlock}:{showBool c.transfer}:{showDir c.direction}")
+  let ss := sortStrings (g.supplies.map fun (d, p) =>
+    s!"{d}:{p.incoming}:{p.outgoing}:{p.current}:{p.tlCurrent}:{p.elapsed}")
+  s!"gprev={g.prevTime} gparams={showAssets g.params} ghtlcs={undash (joinWith "," hs)} gsup={undash (joinWith "," ss)}"
+
+/-- the part of the observation a round trip must preserve (what the harness compares for `same=`) -/
+def viewString (s : State) : String :=
+  let v := Spec.C12Htlc.openView s
+  showState { v with height := 0, time := 0 }
+
 def modelLine (s : State) (line : String) : State × String :=
   let t := tokens line
   match t with
@@ -195,6 +215,13 @@ def modelLine (s : State) (line : String) : State × String :=
     match parseReset r with
     | some s0 => (s0, "ok " ++ showState s0)
     | none => (s, "bad-op")
+  | ["htlc", "export"] =>
+    let g := HtlcGen.exportGenesis defaultPrev s
+    (s, s!"ok validate={if HtlcGen.validateGenesis g then "ok" else "err"} {showGenesis g} {showState s}")
+  | ["htlc", "reimport"] =>
+    match HtlcGen.importGenesis s (HtlcGen.exportGenesis defaultPrev s) with
+    | .ok s' => (s', s!"ok same={if viewString s' == viewString s then 1 else 0} {showState s'}")
+    | .error _ => (s, s!"panic same=1 {showState s}")
   | _ =>
     match parseOp t with
     | none => (s, "bad-op")
@@ -254,6 +281,37 @@ def runMonitor (prop : String) (ops obs : Array String) : IO Unit := do
       | _, _ => fail "parse"; fails := fails + 1
   out.putStrLn s!"mon {prop} done steps={steps} fails={fails}"
 
+/-- C12 (htlc slice): judges the `export` / `reimport` lines of the implementation's stream; the
+pre-state of a line is the previous observation of the implementation -/
+def runMonitorC12 (ops obs : Array String) : IO Unit := do
+  let out ← IO.getStdout
+  if ops.size ≠ obs.size then
+    out.putStrLn s!"mon C12 FAIL clause=stream-length ops={ops.size} obs={obs.size}"
+    return
+  let mut pre : State := {}
+  let mut fails := 0
+  let mut steps := 0
+  for i in [0:ops.size] do
+    let t := tokens ops[i]!
+    let o := tokens obs[i]!
+    match parseState o with
+    | none => out.putStrLn s!"mon C12 FAIL clause=obs-parse line={i+1}"; fails := fails + 1
+    | some post =>
+      match t with
+      | ["htlc", "export"] =>
+        steps := steps + 1
+        let doc := s!"gprev={arg o "gprev"} gparams={arg o "gparams"} ghtlcs={arg o "ghtlcs"} gsup={arg o "gsup"}"
+        let docOk := doc == showGenesis (HtlcGen.exportGenesis ((natArg? o "gprev").getD 0) post)
+        for f in Spec.C12Htlc.checkExport (o.head?.getD "") (arg o "validate") docOk pre post do
+          out.putStrLn s!"mon C12 FAIL {f} line={i+1}"; fails := fails + 1
+      | ["htlc", "reimport"] =>
+        steps := steps + 1
+        for f in Spec.C12Htlc.checkReimport pre (o.head?.getD "") (arg o "same") post do
+          out.putStrLn s!"mon C12 FAIL {f} line={i+1}"; fails := fails + 1
+      | _ => pure ()
+      pre := post
+  out.putStrLn s!"mon C12 done steps={steps} fails={fails}"
+
 def readLines (p : String) : IO (Array String) := do
   let c ← IO.FS.readFile p
   return (c.splitOn "\n").toArray.filter (· ≠ "")
@@ -264,7 +322,8 @@ def main (args : List String) : IO UInt32 := do
   | ["monitor", "C03", ops, obs] => runMonitor "C03" (← readLines ops) (← readLines obs); return 0
   | ["monitor", "C04", ops, obs] => runMonitor "C04" (← readLines ops) (← readLines obs); return 0
   | ["monitor", "C13", ops, obs] => runMonitor "C13" (← readLines ops) (← readLines obs); return 0
-  | _ => IO.eprintln "usage: model <ops> | monitor <C03|C04|C13> <ops> <obs>"; return 2
+  | ["monitor", "C12", ops, obs] => runMonitorC12 (← readLines ops) (← readLines obs); return 0
+  | _ => IO.eprintln "usage: model <ops> | monitor <C03|C04|C12|C13> <ops> <obs>"; return 2
 
 end Driver.Htlc
 
